@@ -11,12 +11,40 @@ def digest(a):
     return hashlib.sha1(a.tobytes() + str(a.shape).encode() + str(a.dtype).encode()).hexdigest()[:16]
 
 
+VARIANTS = ["default", "narrow", "wide", "fortran"]
+_VAR = ["default"]          # the input variant the builders currently use
+
+
+def V(arr):
+    """A caller-owned copy of `arr` in the current input variant: the array as written; narrow
+    (float32 / int8) and wide (float64 / int64) dtypes - one of them is the type the library converts to,
+    so that a conversion without copy would alias the caller's array; Fortran order."""
+    a = np.array(arr, order="C")
+    v = _VAR[0]
+    if v == "narrow":
+        a = a.astype(np.float32 if a.dtype.kind == "f" else np.int8 if a.dtype.kind in "iub" else a.dtype)
+    elif v == "wide":
+        a = a.astype(np.float64 if a.dtype.kind == "f" else np.int64 if a.dtype.kind in "iub" else a.dtype)
+    elif v == "fortran" and a.ndim == 2:
+        a = np.asfortranarray(a)
+    SNAP[id(a)] = (a, digest(a))      # content digest at the moment the caller creates the array
+    return a
+
+
+SNAP = {}
+
+
+def _before(inputs):
+    """Digest of each caller-owned array as it was BEFORE it was handed to the library."""
+    return {k: (SNAP[id(v)][1] if id(v) in SNAP and SNAP[id(v)][0] is v else digest(v)) for k, v in inputs.items()}
+
+
 # ---- objects built from caller-owned arrays (so that the arrays can be checked afterwards)
 def _net_inputs(directed=False):
     from pyunicorn.core import Network
-    A = families.ADJ[directed][1].copy()
-    w = families.WEIGHTS[1].copy()
-    la = families.link_attr(1)
+    A = V(families.ADJ[directed][1])
+    w = V(families.WEIGHTS[1])
+    la = V(families.link_attr(1))
     net = Network(adjacency=A, directed=directed, node_weights=w, silence_level=3)
     net.set_link_attribute("w", la)
     return net, {"adjacency": A, "node_weights": w, "link_attribute": la}
@@ -24,8 +52,8 @@ def _net_inputs(directed=False):
 
 def _rp_inputs(cls_name):
     import pyunicorn.timeseries as ts
-    x = families.SERIES.copy()
-    y = families.SERIES_Y.copy()
+    x = V(families.SERIES)
+    y = V(families.SERIES_Y)
     if cls_name in ("RecurrencePlot", "RecurrenceNetwork"):
         return getattr(ts, cls_name)(x, metric="supremum", threshold=0.6, silence_level=3), {"time_series": x}
     if cls_name == "CrossRecurrencePlot":
@@ -40,13 +68,13 @@ def _rp_inputs(cls_name):
 def _surrogates_inputs():
     from pyunicorn.timeseries import Surrogates
     t = np.arange(16)
-    data = np.array([np.sin(t * 0.7 + k) + 0.3 * np.cos(t * 1.9 + 2 * k) for k in range(3)])
+    data = V(np.array([np.sin(t * 0.7 + k) + 0.3 * np.cos(t * 1.9 + 2 * k) for k in range(3)]))
     return Surrogates(original_data=data, silence_level=3), {"original_data": data}
 
 
 def _climate_inputs(cls_name):
     import pyunicorn.climate as cl
-    obs = families._data()
+    obs = V(families._data())
     cd = cl.ClimateData(obs, families._grid(), 5, silence_level=3)
     kw = dict(threshold=0.4, silence_level=3, winter_only=False)
     inputs = {"observable": obs, "shared_data.observable()": cd.observable(),
@@ -59,13 +87,13 @@ def _climate_inputs(cls_name):
 
 def _clim_inputs():
     from pyunicorn.climate import ClimateNetwork
-    S = families.SIM.copy()
+    S = V(families.SIM)
     return ClimateNetwork(families._grid(), S, threshold=0.4, silence_level=3), {"similarity_measure": S}
 
 
 def _res_inputs():
     from pyunicorn.core import ResNetwork
-    R = families.RES[1].copy()
+    R = V(families.RES[1])
     return ResNetwork(R, silence_level=3), {"resistances": R}
 
 
@@ -135,6 +163,219 @@ TARGETS = {
 }
 
 
+# ---- documented static / free functions and further constructors that receive caller arrays
+def _f_rejection(): 
+    from pyunicorn.timeseries import RecurrencePlot
+    dist = V(np.array([1.0, 4.0, 3.0, 1.5, 0.5]))
+    np.random.seed(3)
+    RecurrencePlot.rejection_sampling(dist, 20)
+    return {"dist": dist}
+
+
+def _f_embed():
+    from pyunicorn.timeseries import RecurrencePlot, Surrogates
+    x = V(families.SERIES)
+    d = V(np.array([families.SERIES, families.SERIES_Y]))
+    RecurrencePlot.embed_time_series(x, 2, 1)
+    Surrogates.embed_time_series_array(d, 2, 1)
+    return {"time_series": x, "time_series_array": d}
+
+
+def _f_rp_metrics():
+    from pyunicorn.timeseries import RecurrencePlot
+    out = {}
+    for metric in ("supremum", "euclidean", "manhattan"):
+        for norm in (False, True):
+            x = V(np.array([families.SERIES, families.SERIES_Y]).T)
+            rp = RecurrencePlot(x, metric=metric, normalize=norm, recurrence_rate=0.3, silence_level=3)
+            rp.recurrence_matrix()
+            rp.rqa_summary() if hasattr(rp, "rqa_summary") else None
+            out["%s,%s" % (metric, norm)] = x
+    return out
+
+
+def _f_coupling():
+    from pyunicorn.funcnet import CouplingAnalysis
+    d = V(np.array([families.SERIES, families.SERIES_Y, families.SERIES[::-1]]).T)
+    ca = CouplingAnalysis(d, silence_level=3)
+    ca.cross_correlation(tau_max=2, lag_mode="max")
+    ca.cross_correlation(tau_max=2, lag_mode="all")
+    ca.mutual_information(tau_max=2, knn=3, estimator="knn")
+    ca.mutual_information(tau_max=2, bins=3, estimator="binning")
+    ca.information_transfer(tau_max=2, estimator="knn", knn=3, past=1, cond_mode="ity", lag_mode="max")
+    return {"dataarray": d}
+
+
+def _f_eventseries():
+    from pyunicorn.eventseries import EventSeries
+    d = V(np.array([families.SERIES, families.SERIES_Y, families.SERIES[::-1]]).T)
+    ev = V((d > 0.5).astype(int))
+    ts = V(np.arange(len(d)).astype(float))
+    e1 = EventSeries(d, threshold_method="quantile", threshold_values=0.6, threshold_types="above")
+    e1.event_series_analysis(method="ES")
+    e1 = EventSeries(d, taumax=3.0, threshold_method="quantile", threshold_values=0.6, threshold_types="above")
+    e1.event_series_analysis(method="ECA", symmetrization="mean", window_type="symmetric")
+    e2 = EventSeries(ev, timestamps=ts, taumax=3.0, lag=1.0)
+    e2.event_series_analysis(method="ES"), e2.event_series_analysis(method="ECA", symmetrization="directed", window_type="retarded")
+    EventSeries.event_synchronization(ev[:, 0], ev[:, 1], taumax=3.0, lag=0.0)
+    EventSeries.event_coincidence_analysis(ev[:, 0], ev[:, 1], 2.0, lag=1.0)
+    return {"data": d, "events": ev, "timestamps": ts}
+
+
+def _f_visibility():
+    from pyunicorn.timeseries import VisibilityGraph
+    x, t = V(families.SERIES), V(np.cumsum(np.abs(families.SERIES_Y) + 0.5))
+    for hor in (False, True):
+        vg = VisibilityGraph(x, timings=t, horizontal=hor, silence_level=3)
+        vg.adjacency, vg.retarded_degree(), vg.advanced_degree(), vg.boundary_corrected_degree()
+        vg.retarded_local_clustering(), vg.advanced_local_clustering(), vg.visibility_relations() if not hor else None
+    xm = V(np.where(np.arange(12) == 4, np.nan, families.SERIES))
+    VisibilityGraph(xm, missing_values=True, silence_level=3).adjacency
+    return {"time_series": x, "timings": t, "time_series(missing)": xm}
+
+
+def _f_geo():
+    from pyunicorn.core import GeoGrid, GeoNetwork, Grid, SpatialNetwork
+    lat, lon = V(np.array([0., 10., 20., 0., -15., 40.])), V(np.array([0., 5., 90., 180., -120., 30.]))
+    tseq = V(np.arange(4.))
+    A = V(families.ADJ[False][1])
+    g = GeoGrid(tseq, lat, lon, silence_level=3)
+    g.angular_distance(), g.sin_lat(), g.cos_lon(), g.geometric_distance_distribution(5), g.euclidean_distance()
+    net = GeoNetwork(g, adjacency=A, node_weight_type="surface", silence_level=3)
+    net.local_geographical_clustering(), net.average_link_distance(), net.average_link_distance(True)
+    net.link_distance_distribution(4, "spherical"), net.total_link_distance(), net.total_link_distance(True)
+    net.max_link_distance(), net.area_weighted_connectivity(), net.geographical_distribution(g.lat_sequence(), 3)
+    net.inaverage_link_distance(), net.outaverage_link_distance(), net.connectivity_weighted_distance()
+    sp = V(np.array([[0., 0.], [1., 0.], [0., 2.], [3., 1.], [2., 2.], [4., 4.]]).T)
+    gg = Grid(tseq, sp, silence_level=3)
+    gg.distance() if hasattr(gg, "distance") else None
+    sn = SpatialNetwork(gg, adjacency=V(families.ADJ[False][1]), silence_level=3)
+    sn.link_distance_distribution(4, "euclidean"), sn.average_link_distance(), sn.max_link_distance()
+    return {"lat": lat, "lon": lon, "time_seq": tseq, "adjacency": A, "space_seq": sp}
+
+
+def _f_interacting():
+    from pyunicorn.core import InteractingNetworks
+    A = V(families.ADJ[False][1])
+    w = V(families.WEIGHTS[1])
+    la = V(families.link_attr(1))
+    net = InteractingNetworks(A, node_weights=w, silence_level=3)
+    net.set_link_attribute("w", la)
+    n1, n2 = [0, 1, 2], [3, 4, 5]
+    net.cross_adjacency(n1, n2), net.cross_link_attribute("w", n1, n2), net.internal_adjacency(n1)
+    net.cross_path_lengths(n1, n2, "w"), net.cross_path_lengths(n1, n2), net.internal_path_lengths(n1, "w")
+    net.cross_closeness(n1, n2), net.cross_betweenness(n1, n2), net.cross_average_path_length(n1, n2, "w")
+    net.nsi_cross_closeness_centrality(n1, n2), net.nsi_cross_betweenness(n1, n2)
+    net.internal_global_clustering(n1), net.cross_local_clustering(n1, n2), net.nsi_cross_local_clustering(n1, n2)
+    net.number_cross_links(n1, n2), net.cross_degree(n1, n2, "w"), net.nsi_cross_degree(n1, n2)
+    return {"adjacency": A, "node_weights": w, "link_attribute": la}
+
+
+def _f_network_ops():
+    from pyunicorn.core import Network
+    A = V(families.ADJ[False][1])
+    w = V(families.WEIGHTS[1])
+    el = V(np.array([[0, 1], [1, 2], [2, 3], [0, 4]]))
+    net = Network(adjacency=A, node_weights=w, silence_level=3)
+    net.copy(), net.undirected_copy(), net.permuted_copy(np.array([1, 0, 2, 3, 5, 4]))
+    net.splitted_copy(), net.laplacian(), net.nsi_laplacian(), net.path_lengths(), net.nsi_betweenness()
+    np.random.seed(4)
+    net.randomly_rewire(2)
+    Network(edge_list=el, silence_level=3).adjacency
+    n2 = Network(adjacency=np.zeros((6, 6), dtype=int), silence_level=3)
+    n2.set_edge_list(el)
+    n2.adjacency = A
+    n2.node_weights = w
+    return {"adjacency": A, "node_weights": w, "edge_list": el}
+
+
+FUNCS = {"rejection_sampling": _f_rejection, "embed": _f_embed, "rp_metrics": _f_rp_metrics,
+         "coupling": _f_coupling, "eventseries": _f_eventseries,
+         "visibility_inputs": _f_visibility, "geo": _f_geo, "interacting_inputs": _f_interacting,
+         "network_ops": _f_network_ops}
+
+
+class _Snap(dict):
+    """Inputs dictionary that remembers the digest (and a private copy) of every array on entry."""
+
+
+def run_inputs_case(c):
+    """mode "inputs": caller-owned arrays in one input variant.  For a class target: build, run ALL
+    queries, build a SECOND object from the very same arrays and compare its queries with a twin built from
+    pristine copies; for a function target: call the documented functions.  Digests before / after."""
+    np.random.seed(c["seed"])
+    import random
+    random.seed(c["seed"])
+    rec = dict(c)
+    rec.update({"q": c["variant"], "skip": 0, "labels": [], "rep": [[0], [0]], "qexc": "",
+                "base": {}, "basex": {}, "after": {}, "afterx": {}})
+    _VAR[0] = c["variant"]
+    try:
+        if c["target"] in FUNCS:
+            SNAP.clear()
+            inputs = FUNCS[c["target"]]()
+            before = _before(inputs)
+            after = {k: digest(a) for k, a in inputs.items()}
+            rec["inputs_before"], rec["inputs_after"] = before, after
+            rec["after"] = {"called": [1, 1, 1000000], "inputs": [1, 1, len(inputs) * 1000000]}
+            rec["base"] = dict(rec["after"])
+            return rec
+        t = TARGETS[c["target"]]
+        twin, tin = t.build()
+        tin.pop("__pre__", None)
+        base, basex = _run_all(t, twin)
+        SNAP.clear()
+        obj, inputs = t.build()
+        pre = inputs.pop("__pre__", None)
+        before = pre if pre is not None else _before(inputs)
+        _run_all(t, obj)
+        rec["inputs_before"] = before
+        rec["inputs_after"] = {k: digest(v) for k, v in inputs.items()}
+        # a second object from the very same caller arrays behaves like the pristine twin
+        second = _rebuild(c["target"], inputs)
+        if second is not None:
+            rec["after"], rec["afterx"] = _run_all(t, second)
+            rec["base"], rec["basex"] = base, basex
+        else:
+            rec["after"] = {"called": [1, 1, 1000000], "n": [1, 1, 2000000]}
+            rec["base"] = dict(rec["after"])
+        return rec
+    finally:
+        _VAR[0] = "default"
+
+
+def _rebuild(target, inputs):
+    """Second object from the SAME caller arrays (None where the class needs more than the arrays)."""
+    import pyunicorn.timeseries as ts
+    from pyunicorn.core import Network, ResNetwork
+    from pyunicorn.climate import ClimateNetwork
+    kw = dict(silence_level=3)
+    if target in ("network", "dirnetwork"):
+        net = Network(adjacency=inputs["adjacency"], directed=(target == "dirnetwork"),
+                      node_weights=inputs["node_weights"], **kw)
+        net.set_link_attribute("w", inputs["link_attribute"])
+        return net
+    if target in ("rp", "rn"):
+        cls = ts.RecurrencePlot if target == "rp" else ts.RecurrenceNetwork
+        return cls(inputs["time_series"], metric="supremum", threshold=0.6, **kw)
+    if target == "crp":
+        return ts.CrossRecurrencePlot(inputs["x"], inputs["y"], threshold=0.6, **kw)
+    if target == "isrn":
+        return ts.InterSystemRecurrenceNetwork(inputs["x"], inputs["y"], threshold=(0.6, 0.6, 0.6), **kw)
+    if target in ("jrp", "jrn"):
+        cls = ts.JointRecurrencePlot if target == "jrp" else ts.JointRecurrenceNetwork
+        return cls(inputs["x"], inputs["y"], threshold=(0.6, 0.7), lag=1, **kw)
+    if target == "visibility":
+        return ts.VisibilityGraph(inputs["time_series"], **kw)
+    if target == "surrogates":
+        return ts.Surrogates(original_data=inputs["original_data"], **kw)
+    if target == "climate":
+        return ClimateNetwork(families._grid(), inputs["similarity_measure"], threshold=0.4, **kw)
+    if target == "resnetwork":
+        return ResNetwork(inputs["resistances"], **kw)
+    return None
+
+
 def _run_all(target, obj, skip=None):
     o, x = {}, {}
     for label, thunk in target.queries(obj):
@@ -157,9 +398,10 @@ def run_case(c):
     twin, tin = t.build()
     tin.pop("__pre__", None)
     base, basex = _run_all(t, twin)
+    SNAP.clear()
     obj, inputs = t.build()
     pre = inputs.pop("__pre__", None)
-    before = pre if pre is not None else {k: digest(v) for k, v in inputs.items()}
+    before = pre if pre is not None else _before(inputs)
     qs = dict(t.queries(obj))
     rec = dict(c)
     rec["labels"] = sorted(qs)
@@ -225,11 +467,19 @@ def main(ctx):
         "non-trivial = the class has at least two queries")
     ctx.extra["targets"] = {l["target"]: len(l["labels"]) for l in lists}
     recs = ctx.run_cases("props.c06.run_case", cases)
+    icases = [{"case": "in_%s_%s" % (t, v), "target": t, "variant": v, "mode": "inputs", "seed": ctx.seed}
+              for t in sorted(set(TARGETS) | set(FUNCS)) for v in VARIANTS]
+    ctx.extra["input_variants"] = {"variants": VARIANTS, "targets": sorted(set(TARGETS) | set(FUNCS))}
+    recs += ctx.run_cases("props.c06.run_inputs_case", icases)
     ctx.validate("Val_C06", "Val_C06", recs, nontrivial=_nontrivial, xmx="4g")
 
 
 def replay(ctx, rep):
     rec = rep["record"]
-    case = {k: rec[k] for k in ("case", "target", "q", "mode", "seed")}
-    recs = ctx.run_cases("props.c06.run_case", [case], jobs=1)
+    if rec["mode"] == "inputs":
+        case = {k: rec[k] for k in ("case", "target", "variant", "mode", "seed")}
+        recs = ctx.run_cases("props.c06.run_inputs_case", [case], jobs=1)
+    else:
+        case = {k: rec[k] for k in ("case", "target", "q", "mode", "seed")}
+        recs = ctx.run_cases("props.c06.run_case", [case], jobs=1)
     ctx.validate("Val_C06", "Val_C06", recs, nontrivial=_nontrivial)
